@@ -466,6 +466,16 @@ func fullArrayLoop(in ssa.Instruction, idx ssa.Value, R *BusRoles) (bool, string
 		return false, "loop header has no condition"
 	}
 	bo, ok := iff.Cond.(*ssa.BinOp)
+	if ok && bo.X != ssa.Value(phi) {
+		// rotated loop (`for i := range N`): the test sits at the end of the body, on i+1
+		if next, isNext := bo.X.(*ssa.BinOp); isNext && next.Op == token.ADD && next.X == ssa.Value(phi) {
+			if one, isK := next.Y.(*ssa.Const); isK && one.Value != nil && one.Int64() == 1 && bo.Op == token.LSS {
+				if k, isK := bo.Y.(*ssa.Const); isK && k.Value != nil && k.Int64() == arrLen && arrLen >= 1 {
+					return true, fmt.Sprintf("for i := range %d with %d shards", k.Int64(), arrLen)
+				}
+			}
+		}
+	}
 	if !ok || bo.X != phi {
 		return false, "loop condition is not on the induction variable"
 	}
